@@ -347,8 +347,12 @@ def native_flag_table(run, tier):
         if c.key.get("layer_reused_before_backward"):
             continue            # auxiliary operands that do not feed the result: "any operand requires grad" is not the rule for these programs
         k = (c.name, len(c.leaves))
-        if seen_ops.get(k, 0) < (2 if tier == "quick" else 6):
+        # per op: the first cases, plus every case that shows a configuration value not seen yet for that op (each-value coverage: a no-op squeeze, a 1-d matmul, ...)
+        vals = seen_ops.setdefault((k, "values"), set())
+        new = {(kk, repr(v)) for kk, v in c.key.items()} - vals
+        if seen_ops.get(k, 0) < (2 if tier == "quick" else 6) or (new and seen_ops.get(k, 0) < (12 if tier == "quick" else 40)):
             seen_ops[k] = seen_ops.get(k, 0) + 1
+            vals |= new
             picked.append(c)
     rng = random.Random(0)
     n = 0
@@ -373,8 +377,9 @@ def native_flag_table(run, tier):
                             tm.gradient__ = True
                     outs = out if isinstance(out, (tuple, list)) else [out]
                     for o in outs:
-                        if any(o is t for t in T.values()):
-                            continue            # identity (e.g. Dropout in eval mode returns its operand): nothing was computed
+                        if any(o is t for t in T.values()) and not c.name.startswith(("functional.", "nn.functional.", "Tensor.")):
+                            continue            # a LAYER documented as the identity (Dropout in eval mode returns its operand, as in PyTorch): nothing was computed.
+                                                # The op wrappers always compute a result: handing the operand back is judged like any other result
                         n += 1
                         run.rt(("flags", c.name, flags, mode))
                         # the operands as seen by the op (layers replace parameters: read the flags actually in force)
